@@ -103,6 +103,8 @@ def rand_value(rng, cls):
     return rng.choice(["len", "abs"])
   if cls == "user":
     return "U()"
+  if cls == "useri":
+    return "UI()"
   raise ValueError(cls)
 
 
@@ -219,7 +221,7 @@ def operand_text(g, opnd, rng):
   return rand_value(rng, opnd[1]), "b%d" % B.CLASS_NAMES.index(opnd[1])
 
 
-BUILTIN_MIX = [c for c in B.CLASS_NAMES if c not in ("user",)]
+BUILTIN_MIX = [c for c in B.CLASS_NAMES if c not in B.USER_CLASSES]
 
 
 def user_statements(g, rng, count, exhaustive_pairs=False):
@@ -271,38 +273,12 @@ def user_statements(g, rng, count, exhaustive_pairs=False):
 # ----------------------------------------------------------------------------
 def _run_module(args):
   """args = (preamble, [stmt]); returns per-statement (error names, inferred type of `v<i>` or None)."""
-  pre, stmts = args
-  common.load_pytype()
-  from pytype import config, io  # pylint: disable=g-import-not-at-top
-  src = pre + "".join("v%d = %s\n" % (i, s) for i, s in enumerate(stmts))
-  base = pre.count("\n")
-  with warnings.catch_warnings():
-    warnings.simplefilter("ignore")
-    try:
-      ret, pyi = io.generate_pyi(src, config.Options.create(python_version=(3, 12)))
-    except Exception as e:  # a crash of the analysis is reported as a disagreement on every line
-      return [(["CRASH:" + type(e).__name__], None)] * len(stmts), []
-  per = [[] for _ in stmts]
-  stray = []
-  for e in ret.context.errorlog.unique_sorted_errors():
-    i = (e.line or 0) - base - 1
-    if 0 <= i < len(stmts):
-      per[i].append(e.name)
-    else:
-      stray.append((e.name, e.line))
-  types = {}
-  for m in re.finditer(r"^v(\d+): (.+)$", pyi, re.M):
-    types[int(m.group(1))] = m.group(2).strip()
-  return [(sorted(set(p)), types.get(i)) for i, p in enumerate(per)], stray
+  return B.run_module((args[0], args[1], True))
 
 
-def run_pytype(modules, procs=16):
-  """modules: list of (preamble, [stmt]) -> list of per-module results."""
-  if not modules:
-    return []
-  common.ensure_ext()
-  with multiprocessing.get_context("fork").Pool(min(procs, len(modules))) as pool:
-    return pool.map(_run_module, modules, chunksize=1)
+def run_pytype(modules):
+  """modules: list of (preamble, [stmt]) -> list of per-module ([(errors, type)], stray)."""
+  return B.run_modules([(p, s, True) for p, s in modules])
 
 
 def cpython_run(pre, stmt):
@@ -325,6 +301,17 @@ def cpython_run(pre, stmt):
       return "EX", None
   v = ns.get("v")
   return "OK", ("_NotImplementedType" if v is NotImplemented else type(v).__name__)
+
+
+def key_of_driver_row(mrow):
+  """`kind,aux,l,r` as printed by the driver -> row key of translate/builtin_ops (or None)."""
+  if mrow == "-":
+    return None
+  rk = [int(x) for x in mrow.split(",")]
+  kind = B.KINDS[rk[0]]
+  aux = B.ATTRS[rk[1]] if kind in ("attr", "mcall") else (B.FUNCS[rk[1]] if kind == "fcall" else "")
+  two = kind.startswith("bin") or kind == "sub"
+  return "%s|%s|%s|%s" % (kind, aux, B.CLASS_NAMES[rk[2]], B.CLASS_NAMES[rk[3]] if two else "")
 
 
 def side(o):
@@ -434,11 +421,10 @@ def correspond(res, rng, tier):
     # expected pytype error names
     if mpy.startswith("err:"):
       ek = mpy[4:]
-      if ek == "reported":
-        rk = [int(x) for x in mrow.split(",")]
-        key = "%s|%s|%s|%s" % (B.KINDS[rk[0]], "", B.CLASS_NAMES[rk[2]],
-                               B.CLASS_NAMES[rk[3]] if B.KINDS[rk[0]].startswith("bin") or B.KINDS[rk[0]] == "sub" else "")
-        exp = pyv.get(key, ["?"])
+      if mrow != "-":
+        # a builtin signature took part: the error *name* is the one real pytype printed for the row
+        # ([wrong-arg-types] when the failing option is a reflected builtin method, which has no symbol)
+        exp = pyv.get(key_of_driver_row(mrow), ["?"])
       else:
         exp = ERRNAME[ek]
       err_kinds[ek] = err_kinds.get(ek, 0) + 1
@@ -461,11 +447,13 @@ def correspond(res, rng, tier):
     out, rty = cpython_run(pre, text)
     cp_ok = (mcpy.split(",") == [out]) if mrow == "-" else (side(out) in {side(o) for o in mcpy.split(",")})
     if bad:
-      disagreements.append({"case": "user-pytype-" + bad, "stmt": text, "driver": dstmt, "pre": pre,
+      disagreements.append({"case": "user-pytype-" + bad, "stmt": text, "driver": dstmt, "pre": pre, "kind": kind,
+                            "modelrow": key_of_driver_row(mrow),
                             "group": g.source(), "pytype": errs, "pytype_type": ty, "model": mpy,
                             "cpython": out, "cpython_type": rty})
     if not cp_ok:
-      disagreements.append({"case": "user-cpython-model", "stmt": text, "driver": dstmt, "pre": pre,
+      disagreements.append({"case": "user-cpython-model", "stmt": text, "driver": dstmt, "pre": pre, "kind": kind,
+                            "modelrow": key_of_driver_row(mrow),
                             "group": g.source(), "cpython": out, "model": mcpy})
     if errs or out != "OK" or mpy.startswith("ok:v") or mpy == "ok:N":
       nontrivial.add(g.source() + text)
@@ -557,7 +545,9 @@ def search(res, rng, disagreements, pfail):
     if "stmt" not in d:
       continue
     pre = B.PREAMBLE if d.get("pre") == "builtin" else d.get("pre", B.PREAMBLE)
-    add(pre, d["stmt"], d.get("row"), None, d.get("group"))
+    if d.get("modelrow") in known:
+      continue
+    add(pre, d["stmt"], d.get("row"), d.get("kind") in ("attr", "mcall", "call"), d.get("group"))
     if d.get("case", "").startswith("user-pytype") and d.get("model", "").startswith("ok:v") \
        and d.get("cpython_type") == TAG_TYPE[int(d["model"][4:])]:
       for p, _ in PROBES:
@@ -579,6 +569,9 @@ def search(res, rng, disagreements, pfail):
     pre = B.PREAMBLE + g.source()
     model = drv.batch([g.driver_line()] + ["S " + s[2] for s in sts]) if drv else [None] * len(sts)
     for (kind, text, dstmt), ml in zip(sts, model):
+      rk = key_of_driver_row(ml.split(" ")[2]) if ml else None
+      if rk in known:
+        continue     # mixed statement that consults a known-finding row
       add(pre, text, None, kind in ("attr", "mcall", "call"), g.source())
       if ml and kind in ("bin", "sub", "neg", "call", "mcall") and ml.startswith("ok:v"):
         _, rty = cpython_run(pre, text)
